@@ -199,9 +199,20 @@ def check_sweep_quota(m, sw, cleaners, rule):
         rule.undecided(site, 'the sweep never calls the cleaner')
         return
     bad = []
+    quotas = []
+    for ni in sw.all_insts():
+        if ni.op == 'phi' and '$1' in ni.o:
+            decs = [sw.get(o) for o in ni.o if o != '$1']
+            if decs and all(d is not None and unit_step(sw, d.ref) == (ni.ref, -1) for d in decs):
+                quotas.append((ni, decs))
     for c in calls:
         ok = False
-        for (op, x, y) in pv.facts_at(c):
+        # the quota variable (starts as the parameter, stepped down by one) is positive at the call on every way into it,
+        # and is stepped once per cleaning
+        for ni, decs in quotas:
+            if (pv.prove_at(('ult', '#0', ni.ref), c) or pv.prove_at(('ne', ni.ref, '#0'), c)) and all(sw.dominates(c, d) for d in decs):
+                ok = True
+        for (op, x, y) in (pv.facts_at(c) if not ok else ()):
             n = None
             if op == 'ult' and const_int(x) == 0:
                 n = y
